@@ -300,6 +300,69 @@ def make_two_runs(hop, op):
     return mk, replay
 
 
+FIXED_CID_TEXT = "d,format,fixed\nf,k,,,1,Choice,\"a,b\"\nf,v,,X,1,Text,\nc,uniq,IsUnique,k\n"
+FIXED_HISTORY = ("fixed-writer", "fixed-writer-unclosed", "fixed-reader", "fixed-reader-crlf")
+
+
+def fixed_history(cid, hop):
+    import io
+    from cutplace import validio, errors
+    if hop.startswith("fixed-writer"):
+        target = io.StringIO()
+        w = validio.Writer(cid, target)
+        w.write_row(["a", "x"])
+        w.write_row(["b", ""])
+        if hop == "fixed-writer":
+            w.close()
+    else:
+        text = "ax\nb \n" if hop == "fixed-reader" else "ax\r\nb \r\n"
+        for _ in validio.rows(cid, io.StringIO(text, newline=""), on_error="yield"):
+            pass
+
+
+def make_fixed_two_runs(hop, maxlen):
+    """fixed format (line delimiter 'any'): a concrete earlier run (Writer / Reader) on the CID, then the real
+    fixed_rows + Reader over an arbitrary text; outcome must equal the outcome under a freshly loaded CID"""
+    from props.c06 import read_mode
+    from props.c13 import Stream
+
+    def go(textdata, native_io):
+        import io
+        with patched(rf.smart_repr()):
+            fresh = rf.build_cid(FIXED_CID_TEXT)
+            expected = read_mode(fresh, io.StringIO(textdata, newline="") if native_io else Stream(textdata), "yield")
+            used = rf.build_cid(FIXED_CID_TEXT)
+            fixed_history(used, hop)
+            got = read_mode(used, io.StringIO(textdata, newline="") if native_io else Stream(textdata), "yield")
+        ok = len(got[0]) == len(expected[0]) and got[1] == expected[1] and got[2] == expected[2] and got[3] == expected[3]
+        if ok:
+            for a, b in zip(got[0], expected[0]):
+                if a[0] != b[0]:
+                    ok = False
+                elif a[0] == "row":
+                    if len(a[1]) != len(b[1]) or any(x != y for x, y in zip(a[1], b[1])):
+                        ok = False
+                elif a[1:] != b[1:]:
+                    ok = False
+        cls = ("fault" if expected[1] is not None else "clean") + "-items%d" % min(len(expected[0]), 2)
+        return ok, cls, got, expected
+
+    def mk(mode):
+        def h(textdata: str):
+            assume(len(textdata) <= maxlen)
+            ok, cls, _, _ = go(textdata, False)
+            return ok, cls
+
+        return h
+
+    def replay(args):
+        ok, cls, got, expected = go(args["textdata"], True)
+        return (not ok), "fixed CID after %s, then reading %r -> %r ; under a fresh CID -> %r" % (
+            hop, args["textdata"], got, expected), "history-independence"
+
+    return mk, replay
+
+
 def build(tier, seed):
     queries = []
     for op in OPS:
@@ -322,6 +385,15 @@ def build(tier, seed):
                              "a real earlier run (%s, 2 rows, keys a/b/c) followed by %s on 2 rows (keys a/b/c, value len<=1), "
                              "header 0..2, all symbolic" % (hop, op), budget_s=900 if tier == "quick" else 3000,
                              per_path_timeout=120, replay=rp, functions=FUNCS, stubs=("S-ROWS", "S-FMT")))
+    for hop in FIXED_HISTORY:
+        ml = 6 if tier == "quick" else 8
+        mk, rp = make_fixed_two_runs(hop, ml)
+        queries.append(Query("C08/two-runs-fixed/%s/then/read" % hop, "two-runs-fixed", mk,
+                             "fixed format, line delimiter any: a concrete earlier run (%s) then Reader(on_error='yield') over "
+                             "the real fixed_rows on every text of length <= %d" % (hop, ml), budget_s=600 if tier == "quick" else 2400,
+                             per_path_timeout=120, replay=rp, expect=("clean-items2", "fault-items0"),
+                             functions=FUNCS + ("cutplace.rowio.fixed_rows", "cutplace.rowio.FixedRowWriter.__init__",
+                                                "cutplace.rowio.FixedRowWriter.write_row"), stubs=("S-STREAM", "S-FMT")))
     return dict(queries=queries,
                 assumptions=["representation invariant of the built-in checks: the IsUnique map holds key tuples of the "
                              "declared arity mapped to locations, the DistinctCount map holds positive counts",
